@@ -3,6 +3,7 @@ import json, time
 from fractions import Fraction as F
 from core import build, unitgen as G, units_ref as R, facts as FX, exact
 from core.driver import Driver, DriverDied, DriverTimeout
+from core import multi
 from core.run import Acc, finish, rng_for, run_shards, NCPU
 from c02 import mag
 
@@ -160,6 +161,34 @@ def shard(p):
             queries.append(gen_query(rng, V, plain, unitf, short))
         for g in ["zzqqxx", "qqq jjj", "population zzzz"]:
             queries.append((g, None))
+        # near misses: a fact word with a possessive or plural ending, a doubled or dropped last letter, a stray apostrophe or hyphen -
+        # alone, in a phrase and inside arithmetic. Whatever the tool does with them (find a constant through the matching prefix,
+        # or report the phrase as unknown), a constant that entered the computation must be reported (seed C18-g: a second, more
+        # tolerant lookup behind the first one that forgets to describe what it found)
+        words = sorted({w for ph in plain + unitf for w in ph.split(" ") if 3 <= len(w) <= 9 and w.isalpha()})
+        def near(w):
+            return rng.choice([w + "'s", w + "'s", w + "s", w + "'", w[:-1], w + w[-1], w + "es", w.capitalize() + "'s", w + "s'", w + "'S"])
+        for _ in range(p["n"] // 4):
+            w = rng.choice(words)
+            m = near(w)
+            ph = rng.choice(plain + unitf).split(" ")
+            form = rng.randint(0, 5)
+            if form == 0:
+                queries.append((m, ("fact", m)))
+            elif form == 1:
+                queries.append(("%s / 2" % m, ("bin", "/", ("fact", m), ("num", F(2)))))
+            elif form == 2:
+                other = rng.choice(plain)
+                queries.append(("%s / (%s)" % (other, m), ("bin", "/", ("fact", other), ("fact", m))))
+            elif form == 3:
+                ph2 = " ".join(near(x) if i == len(ph) - 1 else x for i, x in enumerate(ph))
+                queries.append((ph2, ("fact", ph2)))
+            elif form == 4:
+                ph2 = " ".join(near(x) if i == 0 else x for i, x in enumerate(ph))
+                queries.append(("(%s) * 3" % ph2, ("bin", "*", ("fact", ph2), ("num", F(3)))))
+            else:
+                queries.append(("(%s) * (%s)" % (m, near(rng.choice(words))), None))
+        acc.count("near_miss_phrase_queries", p["n"] // 4)
         # several failing parts in ONE call or operation (round(zzzz, qqqq), (1 / 0) + (zzqq)): which error is reported, and
         # where, must not depend on whether descriptions are on (seed C18-e)
         fails = ["zzzz", "qqqq", "1 / 0", "1 m + 1 s", "earth NOT", "0 ^ -1", "nosuchfn(1)", "floor()", "2 ^ 1.5", "1 xyzunit"]
@@ -230,6 +259,8 @@ def shard(p):
                 if s2 != iso[qi]:
                     acc.violate("c18:answer-differs-from-isolation", "%r gives %s on a database object of its own but %s on one that answered other queries before" % (queries[qi][0], s2[:300], iso[qi][:300]),
                                 {"query": queries[qi][0], "describe": True, "build": p["kind"]})
+        # several expressions in one query string: values and descriptions are those of the expressions evaluated alone, in order
+        multi.stage(acc, d, rng.sample([q for q, t in queries[:n_generated] if "{" not in q], min(n_generated, 300)), rng, 300, PID, p["kind"], kmax=3, descs=True)
         first = {}
         for pos, ((qi, flag), rep) in enumerate(zip(schedule, reps)):
             text, tree = queries[qi]
